@@ -117,7 +117,7 @@ type Machine struct {
 	resolver RelationsResolver
 	// List of all the registered state names.
 	stateNames       S
-	stateNamesExport S
+	stateNamesExport atomic.Pointer[S]
 	loopLock         sync.Mutex
 	handlers         []*handler
 	handlersMx       sync.RWMutex
@@ -1862,7 +1862,7 @@ func (m *Machine) verifyStates(states S) error {
 
 	// memorize the state names order
 	m.stateNames = slicesUniq(states)
-	m.stateNamesExport = nil
+	m.stateNamesExport.Store(nil)
 	m.statesVerified.Store(true)
 
 	// tracers
@@ -3184,11 +3184,14 @@ func (m *Machine) StateNames() S {
 	m.schemaMx.RLock()
 	defer m.schemaMx.RUnlock()
 
-	if m.stateNamesExport == nil {
-		m.stateNamesExport = slices.Clone(m.stateNames)
+	// lazily cached under the read lock only, thus atomic
+	if ret := m.stateNamesExport.Load(); ret != nil {
+		return *ret
 	}
+	ret := slices.Clone(m.stateNames)
+	m.stateNamesExport.Store(&ret)
 
-	return m.stateNamesExport
+	return ret
 }
 
 // Queue returns a copy of the currently active states.
@@ -3457,7 +3460,7 @@ func (m *Machine) Import(data *Serialized) error {
 
 	// restore ID and state names
 	m.stateNames = data.StateNames
-	m.stateNamesExport = nil
+	m.stateNamesExport.Store(nil)
 	m.statesVerified.Store(true)
 	m.machineTick = data.MachineTick + 1
 
